@@ -128,3 +128,24 @@ def lazy_list(self, eager, data0, context, path, j):
     if 0 <= j < len(ev):
         v = lz[j]
         assert v == ev[j], "an accessed element is the value eager parsing returns"
+
+
+def roundtrip_struct(self, obj, context, path, tail, j):
+    """C01 for Struct (container equality is equality of the entries: j is an arbitrary member): parsing the built bytes
+    followed by arbitrary data consumes exactly the built bytes, and every named member of the parsed container equals what the
+    build of that member returned (which is what build puts into the container it returns)"""
+    s = io.BytesIO()
+    try:
+        r = self._build(obj, s, context, path)
+    except Exception:
+        return
+    data = s.getvalue()
+    whole = data + tail
+    lemma_hints(self, obj, data, whole)
+    s2 = io.BytesIO(whole)
+    v = self._parse(s2, context, path)
+    assert s2.tell() == len(data), "parse consumes exactly the built bytes"
+    if 0 <= j < len(self.subcons):
+        nm = self.subcons[j].name
+        if nm:
+            assert v[nm] == r[nm], "each named member of the parsed container equals what its build returned"
